@@ -11,9 +11,10 @@ META = dict(
            "the real min / ball projections; one contact with a two-dimensional friction law.  Clauses: normal percussion >= 0; friction percussion in the "
            "Coulomb disk of the normal percussion it was projected with; AT A FIXED POINT of the projection (hypothesis P = update(P)): complementarity with "
            "the gap (position-level stages) or the Newton-restituted gap rate (velocity-level stages), disk feasibility, and for sliding contacts "
-           "maximal dissipation (friction percussion antiparallel to the slip with magnitude mu P_N).  Moreau.step (real method, LU stub) on two point masses in sphere-sphere contact: xi_N0, xi_F0, W_N are the restituted "
+           "maximal dissipation (friction percussion antiparallel to the slip with magnitude mu P_N).  DualStormerVerlet: the real _step (LU variant) with its fixed-point helpers replaced by a stub returning an arbitrary iterate z whose percussions are a fixed point of the projection closure, "
+           "point mass on a plane: Signorini with the restituted gap rate at the midpoint, Coulomb.  Moreau.step (real method, LU stub) on two point masses in sphere-sphere contact: xi_N0, xi_F0, W_N are the restituted "
            "gap rate / slip velocity / force direction at the step's midpoint configuration.  Outside: that the fixed-point loops reach a fixed "
-           "point within tolerance; DualStormerVerlet (prox is a closure inside _step); penetration 'beyond solver tolerance'; the kinetic-energy clause.",
+           "point within tolerance; penetration 'beyond solver tolerance'; the kinetic-energy clause.",
     assumptions=["dt > 0, prox parameters > 0, mu > 0", "fixed-point hypothesis for the complementarity clauses"],
     trusted_base=[],
 )
@@ -179,6 +180,55 @@ def moreau_xi(h, seed=0):
     h.eq("Moreau: W_N is evaluated at the midpoint configuration", np.asarray(sol.W_N.toarray()), np.asarray(sysm.W_N(tm, qm).toarray()))
 
 
+def dsv(h, body="PM", seed=0):
+    """DualStormerVerlet: the real _step with the fixed-point helpers replaced by their contract (arbitrary z with fun(z) = z): the stored
+    percussions satisfy Signorini (with the restituted gap rate at the midpoint) and Coulomb"""
+    from checks import c17
+    sysm, b, con, mu = _system(h, "RB" if body == "RBc" else body, seed)
+    if body == "RBc":
+        # rigid body (non-spherical inertia, contact point off the centre of mass) in a CONCRETE pose without spin at t_n: the two tangential
+        # prox parameters differ, everything else (velocity, percussions, the iterate z) stays symbolic
+        tn, qn = h.real("t"), np.array([0.0, 0.0, 0.25, 1.0, 0.0, 0.0, 0.0])
+        un = np.concatenate([h.vec("v", 3), np.zeros(3)])
+    else:
+        tn, qn, un = h.real("t"), _q(h, sysm), h.vec("u", sysm.nu)
+    dt = h.pos("dt")
+    sol = c17.dsv_setup(h, sysm, tn, qn, un, dt)
+    if h.sym:
+        from symx import shims
+        sol.M = shims.SymMat(np.asarray(sol.M.toarray(), dtype=object))
+    info = c17.dsv_run_step(h, sol, midpoint_by_evaluation=(body == "RBc"), hypothesis="percussions")
+    u1, PN, PF = sol.sol_u[-1], sol.sol_P_N[-1], sol.sol_P_F[-1]
+    tm, qm = tn + 0.5 * dt, info["qm"]
+    xiN = sysm.xi_N(tm, tm, qm, qm, un, u1)[0]
+    xiF = sysm.xi_F(tm, tm, qm, qm, un, u1)
+    gN = sysm.g_N(tm, qm)[0]
+    h.le("DSV: P_N >= 0", 0.0, PN[0])
+    if h.sym:
+        import z3
+        from symx.core import B
+        t_ = lambda bb: bb.t if isinstance(bb, B) else z3.BoolVal(bool(bb))
+        active = t_(gN <= 0)
+        h.holds("DSV: open contact (midpoint gap > 0) carries no percussion", z3.Implies(z3.Not(active), t_(PN[0] == 0)))
+        h.holds("DSV: closed contact: restituted gap rate >= 0 at a fixed point", z3.Implies(active, t_(xiN >= 0)))
+        h.holds("DSV: closed contact: complementarity P_N xi_N = 0 at a fixed point", z3.Implies(active, t_(PN[0] * xiN == 0)))
+    else:
+        tol = 1e-5
+        act = gN <= 0
+        h.holds("DSV: open contact (midpoint gap > 0) carries no percussion", act or abs(PN[0]) <= tol)
+        h.holds("DSV: closed contact: restituted gap rate >= 0 at a fixed point", (not act) or xiN >= -tol)
+        h.holds("DSV: closed contact: complementarity P_N xi_N = 0 at a fixed point", (not act) or abs(PN[0] * xiN) <= tol)
+    h.le("DSV: friction in the Coulomb disk at a fixed point", PF @ PF, (mu * PN[0]) * (mu * PN[0]) * (1 + 1e-9) + (0.0 if h.sym else 1e-9))
+    if h.sym:
+        h.eq("DSV: friction parallel to the slip at a fixed point", PF[0] * xiF[1] - PF[1] * xiF[0], 0.0)
+        h.le("DSV: friction opposes the slip at a fixed point", PF @ xiF, 0.0)
+        h.eq("DSV: sliding => |P_F| = mu P_N at a fixed point", (xiF @ xiF) * (PF @ PF - (mu * PN[0]) * (mu * PN[0])), 0.0)
+    else:
+        h.eq("DSV: friction parallel to the slip at a fixed point", PF[0] * xiF[1] - PF[1] * xiF[0], 0.0, tol=1e-5)
+        h.le("DSV: friction opposes the slip at a fixed point", PF @ xiF, 1e-6)
+        h.eq("DSV: sliding => |P_F| = mu P_N at a fixed point", (xiF @ xiF) * (PF @ PF - (mu * PN[0]) * (mu * PN[0])), 0.0, tol=1e-5)
+
+
 def _q(h, sysm):
     q = h.vec("q", sysm.nq)
     if sysm.nq == 7:
@@ -205,5 +255,7 @@ def cases(tier, seed):
             cs.append(Case(f"Rattle2/{body}/{tag}", rattle, dict(stage=2, body=body, fixed_point=fp, seed=seed), timeout=T, hard=T * 10, max_paths=64))
             cs.append(Case(f"Moreau/{body}/{tag}", moreau, dict(body=body, fixed_point=fp, seed=seed), timeout=T, hard=T * 10, max_paths=64))
         cs.append(Case(f"Rattle2/{body}/inactive", rattle, dict(stage=2, body=body, fixed_point=False, seed=seed, active=False), timeout=T))
+    for body in (("PM", "RBc") if tier == "quick" else ("PM", "RBc", "RB")):
+        cs.append(Case(f"DualStormerVerlet/{body}/fixed_point", dsv, dict(body=body, seed=seed), timeout=T, hard=T * 10, max_paths=64))
     cs.append(Case("Moreau/step/sphere-sphere/restituted_gap_rate", moreau_xi, dict(seed=seed), timeout=T, hard=T * 25, max_paths=64))
     return cs
